@@ -6,8 +6,15 @@ Quantification: every notes structure `g` (any CFG, well-formed or not), every l
 record sequences, every permutation, every k. `compute … = ok r` means "accepted": the
 alternatives are `err` (rejected), `crash` (a Rust panic: index, u64 overflow with overflow
 checks on) and `diverge` (fuel).
+Parts: Props/C15Bytes.lean (the same laws over file BYTES, `computeBytes`; bytes = records),
+Props/C15Entry.lean (executed iff entered under the shape condition `EntryFirst`, and the witness
+that it is needed), Props/C15Mismatch.lean (a function-checksum mismatch is an `err` below the
+overflow guard, of a kind that does not depend on the order of the matching gcda files).
 -/
 import GrcovModel.Lemmas.GcnoFinal
+import GrcovModel.Props.C15Bytes
+import GrcovModel.Props.C15Entry
+import GrcovModel.Props.C15Mismatch
 namespace Grcov.Props.C15
 open Grcov Grcov.Gcno AList Outcome
 
